@@ -652,6 +652,10 @@ func judgeLevels(kk *K, name, shape, sig string, cc *cmCase, s *qSys, single gra
 			}
 			m := cc.layers[l]
 			sgn := cc.sign(l)
+			if msg := reducedNodeQueries(lg, K); msg != "" {
+				fail("reduced-graph-query-methods", map[string]any{"level": li, "layer": l}, "level %d layer %d: %s", li, l, msg)
+				return
+			}
 			for a := 0; a < K; a++ {
 				wantFrom := map[int64]bool{}
 				wantTo := map[int64]bool{}
@@ -679,7 +683,15 @@ func judgeLevels(kk *K, name, shape, sig string, cc *cmCase, s *qSys, single gra
 								"level %d layer %d: Weight(%d,%d) = %v,%v; the weight inside the community is %v (sum over ordered member pairs, as Q's A_ii)", li, l, a, a, got, ok, want)
 							return
 						}
+						if msg := reducedPairQueries(lg, a, a, false, false, 0, band); msg != "" {
+							fail("reduced-graph-query-methods", map[string]any{"level": li, "layer": l, "node": a}, "level %d layer %d: %s", li, l, msg)
+							return
+						}
 						continue
+					}
+					if msg := reducedPairQueries(lg, a, b, exists, existsRev, want, band); msg != "" {
+						fail("reduced-graph-query-methods", map[string]any{"level": li, "layer": l, "from": a, "to": b}, "level %d layer %d: %s", li, l, msg)
+						return
 					}
 					if ok != exists || (exists && !(math.Abs(got-want) <= band)) {
 						fail("reduced-edge-weight", map[string]any{"level": li, "layer": l, "from": a, "to": b, "got": got, "ok": ok, "want": want},
@@ -853,4 +865,135 @@ func checkNegativeWeightPanics(k *K, r *vrt.Rand) {
 		expectPanic("QMultiplex", func() { community.QMultiplex(mux, comm, []float64{-1}, nil) })
 		expectPanic("ModularizeMultiplex", func() { community.ModularizeMultiplex(mux, []float64{-1}, nil, true, vrt.NewRand(r.Uint64())) })
 	}
+}
+
+// The reduced graphs are graph containers in their own right
+// (graph.WeightedUndirected / graph.WeightedDirected): every query method must
+// agree with the others and with the sums of input edge weights between the
+// two communities. reducedPairQueries asks all pair queries for the ordered
+// pair (a,b); exists / existsRev say whether the input has an edge from a
+// member of a to a member of b / the other way round; want is the total weight
+// a->b. For a == b all edge queries must report "no edge" (From never lists
+// the node itself, and Edge documents "The node v must be directly reachable
+// from u as defined by the From method"). It returns "" or a description of
+// the first disagreement; a panic inside a query is a disagreement.
+func reducedPairQueries(lg graph.Graph, a, b int, exists, existsRev bool, want, band float64) (msg string) {
+	defer func() {
+		if r := recover(); r != nil {
+			msg = fmt.Sprintf("a query method panicked for the pair (%d,%d): %v", a, b, r)
+		}
+	}()
+	x, y := int64(a), int64(b)
+	_, directed := lg.(graph.Directed)
+	if !directed {
+		exists = exists || existsRev
+		existsRev = exists
+	}
+	if a == b {
+		exists, existsRev = false, false
+	}
+	endsOK := func(e graph.Edge) bool {
+		f, t := e.From().ID(), e.To().ID()
+		if directed {
+			return f == x && t == y
+		}
+		return (f == x && t == y) || (f == y && t == x)
+	}
+	if got := lg.HasEdgeBetween(x, y); got != (exists || existsRev) {
+		return fmt.Sprintf("HasEdgeBetween(%d,%d) = %v, input edges between the communities exist: %v", a, b, got, exists || existsRev)
+	}
+	if dg, ok := lg.(graph.Directed); ok {
+		if got := dg.HasEdgeFromTo(x, y); got != exists {
+			return fmt.Sprintf("HasEdgeFromTo(%d,%d) = %v, input edges from the first to the second community exist: %v", a, b, got, exists)
+		}
+	}
+	judge := func(method string, e graph.Edge) string {
+		if (e != nil && !isNilValue(e)) != exists {
+			return fmt.Sprintf("%s(%d,%d) non-nil: %v, but input edges in that direction exist: %v", method, a, b, e != nil, exists)
+		}
+		if e == nil || isNilValue(e) {
+			if e != nil {
+				return fmt.Sprintf("%s(%d,%d) returned a non-nil interface holding a nil value", method, a, b)
+			}
+			return ""
+		}
+		if !endsOK(e) {
+			return fmt.Sprintf("%s(%d,%d) returned the edge %d->%d", method, a, b, e.From().ID(), e.To().ID())
+		}
+		if we, ok := e.(graph.WeightedEdge); ok {
+			if !(math.Abs(we.Weight()-want) <= band) {
+				return fmt.Sprintf("%s(%d,%d).Weight() = %v, the input edges from the first to the second community weigh %v", method, a, b, we.Weight(), want)
+			}
+		}
+		return ""
+	}
+	if m := judge("Edge", lg.Edge(x, y)); m != "" {
+		return m
+	}
+	if wg, ok := lg.(graph.Weighted); ok {
+		var e graph.Edge
+		if we := wg.WeightedEdge(x, y); we != nil {
+			e = we
+		}
+		if m := judge("WeightedEdge", e); m != "" {
+			return m
+		}
+	}
+	if ug, ok := lg.(graph.Undirected); ok {
+		if m := judge("EdgeBetween", ug.EdgeBetween(x, y)); m != "" {
+			return m
+		}
+	}
+	if wu, ok := lg.(graph.WeightedUndirected); ok {
+		var e graph.Edge
+		if we := wu.WeightedEdgeBetween(x, y); we != nil {
+			e = we
+		}
+		if m := judge("WeightedEdgeBetween", e); m != "" {
+			return m
+		}
+	}
+	return ""
+}
+
+// reducedNodeQueries checks Node for every node of the level and the pair
+// queries for IDs that are not nodes of the level (no node, no edge).
+func reducedNodeQueries(lg graph.Graph, K int) (msg string) {
+	defer func() {
+		if r := recover(); r != nil {
+			msg = fmt.Sprintf("a query method panicked: %v", r)
+		}
+	}()
+	for a := 0; a < K; a++ {
+		if nd := lg.Node(int64(a)); nd == nil || isNilValue(nd) || nd.ID() != int64(a) {
+			return fmt.Sprintf("Node(%d) does not return the node %d", a, a)
+		}
+	}
+	for _, x := range []int64{-1, int64(K), int64(K) + 3} {
+		if nd := lg.Node(x); nd != nil && !isNilValue(nd) {
+			return fmt.Sprintf("Node(%d) is non-nil for an ID that is not a node of the level (%d nodes)", x, K)
+		}
+		if K == 0 {
+			continue
+		}
+		for _, y := range []int64{0, int64(K - 1)} {
+			for _, pr := range [][2]int64{{x, y}, {y, x}} {
+				if lg.HasEdgeBetween(pr[0], pr[1]) || lg.Edge(pr[0], pr[1]) != nil {
+					return fmt.Sprintf("an edge is reported between %d and %d although %d is not a node of the level", pr[0], pr[1], x)
+				}
+				if dg, ok := lg.(graph.Directed); ok && dg.HasEdgeFromTo(pr[0], pr[1]) {
+					return fmt.Sprintf("HasEdgeFromTo(%d,%d) is true although %d is not a node of the level", pr[0], pr[1], x)
+				}
+				if wg, ok := lg.(graph.Weighted); ok {
+					if _, ok := wg.Weight(pr[0], pr[1]); ok {
+						return fmt.Sprintf("Weight(%d,%d) reports an edge although %d is not a node of the level", pr[0], pr[1], x)
+					}
+					if wg.WeightedEdge(pr[0], pr[1]) != nil {
+						return fmt.Sprintf("WeightedEdge(%d,%d) is non-nil although %d is not a node of the level", pr[0], pr[1], x)
+					}
+				}
+			}
+		}
+	}
+	return ""
 }
